@@ -29,7 +29,10 @@ type Plan struct {
 	BudgetQuick    time.Duration // total wall budget for exploration (internal deadline => exhaustive:false, exit 0)
 	BudgetThorough time.Duration
 	Shards         int
-	Finish         func(r *vlib.Run) // extra evidence / assumptions before Finish
+	// ManyScenarios: distribute whole scenarios over the worker processes (one worker explores a scenario
+	// alone) instead of sharding every scenario over all workers. For plans with many small scenarios.
+	ManyScenarios bool
+	Finish        func(r *vlib.Run) // extra evidence / assumptions before Finish
 }
 
 var (
@@ -54,7 +57,64 @@ type workerOut struct {
 	Unconfirmed []string     `json:"unconfirmed"`
 }
 
+func boundsFor(p *Plan, name, tier string) []vsched.Bound {
+	b := p.QuickBounds
+	if tier == "thorough" {
+		b = p.ThoroughBounds
+	}
+	if m, ok := p.PerScenario[name]; ok {
+		if x, ok := m[tier]; ok {
+			b = x
+		}
+	}
+	return b
+}
+
+func exploreOne(sc *vsched.Scenario, bounds []vsched.Bound, i, n int, deadline time.Time) workerOut {
+	e := &vsched.Explorer{Sc: sc, Bounds: bounds, ShardI: i, ShardN: n, Deadline: deadline}
+	st := e.Explore()
+	out := workerOut{Stats: st}
+	var confirmed []vsched.Violation
+	for k := range st.Violations {
+		v := st.Violations[k]
+		if strings.HasPrefix(v.Sig, "HARNESS-NONDETERMINISM") || !e.Confirm(&v, 5) {
+			out.Unconfirmed = append(out.Unconfirmed, v.Sig)
+			continue
+		}
+		confirmed = append(confirmed, v)
+	}
+	st.Violations = confirmed
+	return out
+}
+
+func multiWorkerMain(p *Plan) {
+	var i, n int
+	fmt.Sscanf(*fShard, "%d/%d", &i, &n)
+	tier := *fBounds // tier name is passed in the bounds flag
+	var dl time.Time
+	if *fDeadline > 0 {
+		dl = time.Unix(*fDeadline, 0)
+	}
+	var outs []workerOut
+	for k, sc := range p.Scenarios {
+		if k%n != i {
+			continue
+		}
+		if *fOnly != "" && sc.Name != *fOnly {
+			continue
+		}
+		outs = append(outs, exploreOne(sc, boundsFor(p, sc.Name, tier), 0, 1, dl))
+	}
+	b, _ := json.Marshal(outs)
+	os.Stdout.Write(b)
+	os.Exit(0)
+}
+
 func workerMain(p *Plan) {
+	if *fWorker == "@multi" {
+		multiWorkerMain(p)
+		return
+	}
 	sc := find(p, *fWorker)
 	if sc == nil {
 		fmt.Fprintln(os.Stderr, "no such scenario", *fWorker)
@@ -110,6 +170,71 @@ func Main(id string, p *Plan) {
 	var perScenario []map[string]any
 	broken := false
 	scs := p.Scenarios
+	if p.ManyScenarios {
+		scs = nil
+		outsAll := make([][]workerOut, shards)
+		errs := make([]string, shards)
+		var wg sync.WaitGroup
+		for i := 0; i < shards; i++ {
+			wg.Add(1)
+			go func(i int) {
+				defer wg.Done()
+				args := []string{"-vsworker", "@multi", "-vsshard", fmt.Sprintf("%d/%d", i, shards), "-vsbounds", r.Tier(), "-vsdeadline", fmt.Sprint(deadline.Unix())}
+				if *fOnly != "" {
+					args = append(args, "-scenario", *fOnly)
+				}
+				cmd := exec.Command(os.Args[0], args...)
+				cmd.Env = append(os.Environ(), "GOMAXPROCS=1")
+				var so, se bytes.Buffer
+				cmd.Stdout, cmd.Stderr = &so, &se
+				if err := cmd.Run(); err != nil {
+					errs[i] = fmt.Sprintf("worker %d: %v: %s", i, err, tail(se.String(), 1500))
+					return
+				}
+				if err := json.Unmarshal(so.Bytes(), &outsAll[i]); err != nil {
+					errs[i] = fmt.Sprintf("worker %d: bad output: %v: %s", i, err, tail(so.String()+se.String(), 800))
+				}
+			}(i)
+		}
+		wg.Wait()
+		nsc := 0
+		for i := range outsAll {
+			if errs[i] != "" {
+				fmt.Fprintln(os.Stderr, errs[i])
+				broken = true
+				continue
+			}
+			for _, wo := range outsAll[i] {
+				st := wo.Stats
+				nsc++
+				totalExec += st.Executions
+				totalSteps += st.Steps
+				horizon += st.Horizon
+				leaked += st.Leaked
+				if st.MaxDepth > maxDepth {
+					maxDepth = st.MaxDepth
+				}
+				outcomes += len(st.OutcomeHashes)
+				if !st.Exhaustive {
+					r.CapHit("time budget reached in scenario " + st.Scenario)
+				}
+				for _, u := range wo.Unconfirmed {
+					fmt.Fprintf(os.Stderr, "%s: schedule did not reproduce identically (harness nondeterminism): %s\n", st.Scenario, tail(u, 300))
+					broken = true
+				}
+				for _, v := range st.Violations {
+					r.Violation(st.Scenario+": "+v.Sig, map[string]any{"scenario": st.Scenario, "schedule": v.Schedule, "bound": v.Bound, "detail": v.Detail, "trace": v.Trace})
+				}
+				if len(perScenario) < 40 {
+					perScenario = append(perScenario, map[string]any{"scenario": st.Scenario, "executions": st.Executions, "decisions": st.Steps, "distinct_outcomes": len(st.OutcomeHashes), "bound_completed": st.BoundCompleted, "exhaustive_within_bounds": st.Exhaustive})
+				}
+				if nsc%37 == 1 && st.SampleSchedule != nil {
+					r.Sample(map[string]any{"scenario": st.Scenario, "schedule": st.SampleSchedule})
+				}
+			}
+		}
+		r.Set("scenario_count", nsc)
+	}
 	for si, sc := range scs {
 		if *fOnly != "" && sc.Name != *fOnly {
 			continue
